@@ -138,6 +138,7 @@ func attachToken(format string, env, token []byte) ([]byte, error) {
 			msg.Headers.Unprotected = cose.UnprotectedHeader{}
 		}
 		msg.Headers.Unprotected[label] = token
+		msg.Headers.RawUnprotected = nil // otherwise go-cose re-emits the decoded raw header
 		return msg.MarshalCBOR()
 	}
 	return nil, fmt.Errorf("unknown format %q", format)
